@@ -930,3 +930,30 @@ Proof.
   rewrite tlsh_info_protos by exact Hwf. rewrite <- tlsh_alpn_match_spec.
   destruct (alpn_match cfg (alpn h)); split; split; intro H; try reflexivity; try discriminate; try congruence.
 Qed.
+
+(* ------------------------------------------------------------------ no per-connection memo *)
+Lemma tlsh_rematch_bytes_only subs st p :
+  fst (tls_rematch subs st p) = r_verdict (tls_match subs p) /\
+  (forall n v, r_server_name (tls_match subs p) = Some n -> r_version (tls_match subs p) = Some v ->
+     snd (tls_rematch subs st p) = Some (n, v)) /\
+  (r_server_name (tls_match subs p) = None -> snd (tls_rematch subs st p) = st).
+Proof.
+  unfold tls_rematch. cbn [fst snd]. split; [reflexivity|]. split.
+  - intros n v Hn Hv. rewrite Hn, Hv. reflexivity.
+  - intro Hn. rewrite Hn. reflexivity.
+Qed.
+
+(* after any earlier hello on the same connection, a record of another type is still answered No and
+   a complete hello B is decided on B and sets B's placeholders *)
+Lemma tlsh_rematch_after subs subs0 st0 pA :
+  let st := snd (tls_rematch subs0 st0 pA) in
+  (forall t p, t <> x16 -> (4 <= length p)%nat -> fst (tls_rematch subs st (t :: p)) = No) /\
+  (forall v h rest, wf_hello h -> vfits 2 (hs_header (encode_hello h) ++ encode_hello h) ->
+     tls_rematch subs st (encode_record v h ++ rest) =
+     (if subs (info_of_hello h) then Yes else No, Some (sni h, h_legacy_version h))).
+Proof.
+  cbv zeta. split.
+  - intros t p Ht Hl. unfold tls_rematch. cbn [fst].
+    apply (tlsh_match_non_handshake subs t p Ht). exact Hl.
+  - intros v h rest Hwf Hf. unfold tls_rematch. rewrite tlsh_match_record by assumption. reflexivity.
+Qed.
